@@ -152,7 +152,18 @@ ExhHz(p, rr, i) == CASE p = 1 -> 1 [] p = 2 -> 2 * Pow2Small(rr) + 1
                      [] OTHER -> << 0, Pow2Small(rr), 5 >>[((i - 1) % 3) + 1]
 ExhStim == { ExecX("hz", rr, LAMBDA i : ExhHz(p, rr, i), x) :
              rr \in 0..MaxLog, p \in 1..3, x \in {0, 2, Frames \div 2} }
-Stimuli == ConstStim \cup HzConstStim \cup RampStim \cup CycStim \cup ExhStim
+\* round 4: a look-ahead through clones (`peek{m}`: every oscillator cloned mid-run and read through the provided
+\* Signal::take) before the first frame, after one frame, half-way, with a second peek while the first is
+\* still being replayed; constant and per-frame frequencies, with and without an exhausted-reporting source
+PeekOp(m) == [ev |-> "peek", a |-> [m |-> m]]
+WithPeek(e, at, m) == SubSeq(e, 1, at) \o << PeekOp(m) >> \o SubSeq(e, at + 1, Len(e))
+PeekStim ==
+  { WithPeek(WithPeek(ExecX(md, rr, LAMBDA i : IF md = "const" THEN 3 ELSE << 1, Pow2Small(rr), 5 >>[((i - 1) % 3) + 1], x), at, m),
+             at + 3, 2)
+    : md \in {"const", "hz"}, rr \in 0..MaxLog, at \in {1, 2, Frames \div 2}, m \in {1, 4},
+      x \in {-1} }
+  \cup { WithPeek(ExecX("hz", rr, LAMBDA i : ExhHz(3, rr, i), 2), at, 3) : rr \in 0..MaxLog, at \in {1, 3} }
+Stimuli == ConstStim \cup HzConstStim \cup RampStim \cup CycStim \cup ExhStim \cup PeekStim
 
 WriteStimuli ==
   IF "STIM_OUT" \in DOMAIN IOEnv
